@@ -49,3 +49,69 @@ Proof.
   rewrite (InclusionProofs.csp_length _ Hr') in S. cbn [Nat.add] in S.
   rewrite slice_length in S by (rewrite map_length; lia). exact S.
 Qed.
+
+(* C16: decompose_concat (the self-recursive traversal that feeds concat_inclusion): with fuel above the height of the
+   term it returns, without panic, a list of factors whose concatenation is exactly the language of the term *)
+Lemma g_decompose_concat_total fuel r : height (conv_re r) <= fuel -> exists l, M_fn_decompose_concat fuel r = Some l.
+Proof.
+  intros Hh. pose proof (link_decompose_concat fuel r Hh) as L.
+  destruct (M_fn_decompose_concat fuel r) as [l|]; [exists l; reflexivity | discriminate L].
+Qed.
+Lemma g_decompose_concat_lang fuel r l : height (conv_re r) <= fuel -> M_fn_decompose_concat fuel r = Some l ->
+  forall w, L (conv_re r) w <-> CL (map conv_re l) w.
+Proof.
+  intros Hh E w. pose proof (link_decompose_concat fuel r Hh) as Lk. rewrite E in Lk. cbn [option_map] in Lk.
+  injection Lk as Lk. rewrite Lk. apply flatten_concat_CL.
+Qed.
+(* more fuel never changes the answer *)
+Lemma g_decompose_concat_fuel_irrelevant f1 f2 r : height (conv_re r) <= f1 -> height (conv_re r) <= f2 ->
+  option_map (map conv_re) (M_fn_decompose_concat f1 r) = option_map (map conv_re) (M_fn_decompose_concat f2 r).
+Proof. intros H1 H2. rewrite (link_decompose_concat f1 r H1), (link_decompose_concat f2 r H2). reflexivity. Qed.
+
+(* the flattening helpers of the smart constructors inter / union (self-recursive through a for loop): with fuel above
+   the height of the term they never panic, only append to the vector they are given, and the appended terms are
+   exactly a conjunctive / disjunctive decomposition of the language of the term *)
+Require ManagerProofs.
+Lemma flatten_inter_lang : forall e w, L e w <-> (forall x, In x (flatten_inter e) -> L x w).
+Proof.
+  intros e. induction e as [e IH] using ManagerProofs.re_induction. intros w.
+  destruct e as [i n c k].
+  assert (D : (forall l, k <> NInter l) -> flatten_inter (Node i n c k) = [Node i n c k]).
+  { intros Hk. destruct k; try reflexivity. exfalso. eapply Hk. reflexivity. }
+  destruct k as [| |cs|a b|a r|a|l|l]; try (rewrite D by (intros ? ?; discriminate); split; [intros H x [<-|[]]; exact H | intros H; apply H; left; reflexivity]).
+  rewrite ManagerProofs.L_inter. change (flatten_inter (Node i n c (NInter l))) with (flat_map flatten_inter l).
+  cbn [rnode children] in IH. split.
+  - intros H x Hx. apply in_flat_map in Hx as (c0 & Hc & Hx). apply (proj1 (IH c0 Hc w) (H c0 Hc) x Hx).
+  - intros H c0 Hc. apply (IH c0 Hc w). intros x Hx. apply H. apply in_flat_map. exists c0. split; assumption.
+Qed.
+Lemma flatten_union_lang : forall e w, L e w <-> (exists x, In x (flatten_union e) /\ L x w).
+Proof.
+  intros e. induction e as [e IH] using ManagerProofs.re_induction. intros w.
+  destruct e as [i n c k].
+  assert (D : (forall l, k <> NUnion l) -> flatten_union (Node i n c k) = [Node i n c k]).
+  { intros Hk. destruct k; try reflexivity. exfalso. eapply Hk. reflexivity. }
+  destruct k as [| |cs|a b|a r|a|l|l]; try (rewrite D by (intros ? ?; discriminate); split; [intros H; eexists; split; [left; reflexivity|exact H] | intros (x & [<-|[]] & H); exact H]).
+  rewrite ManagerProofs.L_union. change (flatten_union (Node i n c (NUnion l))) with (flat_map flatten_union l).
+  cbn [rnode children] in IH. split.
+  - intros (c0 & Hc & H). apply (IH c0 Hc w) in H as (x & Hx & H). exists x. split; [|exact H]. apply in_flat_map. exists c0. split; assumption.
+  - intros (x & Hx & H). apply in_flat_map in Hx as (c0 & Hc & Hx). exists c0. split; [exact Hc|]. apply (IH c0 Hc w). exists x. split; assumption.
+Qed.
+
+Lemma g_flatten_inter_lang fuel r v : height (conv_re r) <= fuel ->
+  exists l, M_fn_flatten_inter fuel r v = Some (v ++ l, tt) /\
+    forall w, L (conv_re r) w <-> (forall x, In x l -> L (conv_re x) w).
+Proof.
+  intros Hh. destruct (link_flatten_inter_fuel fuel r v Hh) as (l & E & M). exists l. split; [exact E|].
+  intros w. rewrite flatten_inter_lang, <- M. split.
+  - intros H x Hx. apply H. apply in_map. exact Hx.
+  - intros H x Hx. apply in_map_iff in Hx as (y & <- & Hy). apply H. exact Hy.
+Qed.
+Lemma g_flatten_union_lang fuel r v : height (conv_re r) <= fuel ->
+  exists l, M_fn_flatten_union fuel r v = Some (v ++ l, tt) /\
+    forall w, L (conv_re r) w <-> (exists x, In x l /\ L (conv_re x) w).
+Proof.
+  intros Hh. destruct (link_flatten_union_fuel fuel r v Hh) as (l & E & M). exists l. split; [exact E|].
+  intros w. rewrite flatten_union_lang, <- M. split.
+  - intros (x & Hx & H). apply in_map_iff in Hx as (y & <- & Hy). exists y. split; assumption.
+  - intros (x & Hx & H). exists (conv_re x). split; [apply in_map; exact Hx | exact H].
+Qed.
